@@ -131,6 +131,7 @@ func init() {
 			checkC01Denote(c, budget(c.Tier, 1500, 60000))
 			checkC01TextTypes(c, budget(c.Tier, 150, 5000))
 			checkRenamed(c, budget(c.Tier, 100, 3000), "C01")
+			checkC01ClusterWithUnknown(c, budget(c.Tier, 80, 2000))
 		}}
 	}
 	parseProp("C03", caseRule+"emphasis: pass-through options, terminators, weird tokens", 2500, 100000, func(p *Profile) {
@@ -147,6 +148,7 @@ func init() {
 			checkC03Handed(c, budget(c.Tier, 600, 30000))
 			checkBadPositional(c, budget(c.Tier, 300, 10000), "C03")
 			checkRenamed(c, budget(c.Tier, 100, 3000), "C03")
+			checkC03HandlerTakesLast(c, budget(c.Tier, 60, 2000))
 		}}
 	}
 	parseProp("C04", caseRule+"emphasis: arbitrary bytes, malformed tokens, PrintErrors", 2500, 100000, func(p *Profile) {
@@ -186,6 +188,7 @@ func init() {
 			checkC06BeforeCommand(c, budget(c.Tier, 200, 6000))
 			checkC06RequiredChanged(c, budget(c.Tier, 200, 6000))
 			checkC06IniSupplied(c, budget(c.Tier, 100, 3000))
+			checkC06BadDefaultFirst(c, budget(c.Tier, 60, 2000))
 		}}
 	}
 	parseProp("C07", caseRule+"emphasis: unknown / near-miss / out-of-scope options under the three policies", 2500, 100000, func(p *Profile) {
@@ -204,6 +207,7 @@ func init() {
 			checkC07CommandNamespace(c, budget(c.Tier, 200, 6000))
 			checkC07DigitOption(c, budget(c.Tier, 200, 6000))
 			checkC07Repeated(c, budget(c.Tier, 200, 6000))
+			checkC07OptionalMidCluster(c, budget(c.Tier, 60, 2000))
 		}}
 	}
 	parseProp("C08", caseRule+"emphasis: deep command trees, aliases, name clashes between levels", 2500, 100000, func(p *Profile) {
@@ -334,6 +338,7 @@ func init() {
 			checkC14(c, budget(c.Tier, 720, 72000))
 			checkIniLateSection(c, budget(c.Tier, 150, 5000), "C14")
 			checkIniAddOption(c, budget(c.Tier, 60, 2000), "C14")
+			checkC14NumberAfterLongLine(c, budget(c.Tier, 60, 2000))
 		}}
 }
 
@@ -347,6 +352,7 @@ func init() {
 			checkC13CommandNamespace(c, budget(c.Tier, 150, 5000))
 			checkIniAddOption(c, budget(c.Tier, 60, 2000), "C13")
 			checkC13SectionRenamed(c, budget(c.Tier, 60, 2000), "C13")
+			checkC13SameKeyNextSection(c, budget(c.Tier, 60, 2000), "C13")
 			runMixedCases(c, budget(c.Tier, 150, 15000), defaultProfile, []string{"iniparse", "parse"}, 3, func(cr *CaseResult) { oracleNoPanic(c, cr) })
 		}}
 	props["C05"] = propRun{
